@@ -1,6 +1,7 @@
 import Bclv.Model.Api
 import Bclv.Verifier
 import Bclv.Model.Args
+import Bclv.Model.ProtoRun
 /-!
 # Line-protocol driver: one operation per input line, one result line per operation.
 All payloads are hexadecimal.
@@ -116,6 +117,13 @@ def runOp (words : List String) : String :=
         | none => "reject")
     | .err m => "loaderr " ++ m
     | .panic => "loadpanic"
+  | ["PROTO", cap, name, items] =>
+    let parseItem (t : String) : Bclv.Proto.Item :=
+      if t == "z" then .zero else if t == "E" then .eof else if t == "X" then .err
+      else if t.startsWith "d" then .data (fromHex (t.drop 1).toString)
+      else .dataEof (fromHex (t.drop 1).toString)
+    let its := if items == "-" then [] else (items.splitOn ",").map parseItem
+    Bclv.Proto.protoAnswer cap.toNat! (fromHex name) its
   | ["ARGS", argv] =>
     let args : List Bclv.Args.Arg := if argv == "-" then [] else
       (argv.splitOn ",").map (fun h => (fromHex h).map (fun b => Char.ofNat b.toNat))
